@@ -550,11 +550,13 @@ func TestC04(t *testing.T) {
 				seeds = gobSeeds
 				// what the hostile documents decode to, stored and read back
 				for _, doc := range c04Hostile {
-					if it, err := ap.UnmarshalJSON(doc); err == nil && !vocab.IsEmptyItem(it) {
-						if b, err := ap.GobEncode(it); err == nil && len(b) > 0 {
-							seeds = append(seeds, b)
+					_ = evSafe(func() { // what goes wrong here is the JSON entries' to report
+						if it, err := ap.UnmarshalJSON(doc); err == nil && !vocab.IsEmptyItem(it) {
+							if b, err := ap.GobEncode(it); err == nil && len(b) > 0 {
+								seeds = append(seeds, b)
+							}
 						}
-					}
+					})
 				}
 			}
 			var ds []keyed
